@@ -49,15 +49,13 @@ Definition pin_acc (id : Z) : list Z :=
   else if id =? 24 then [42; 42] else if id =? 25 then [9; 0; 9] else if id =? 26 then [42; 1] else [].
 (* ids 30-35: the arguments object of function (a, b, a) / (a, a).  10.6 step 11.c visits the indices from the last one
    down and maps a NAME once: an earlier parameter of the same name (when the later one received an argument too) is a
-   plain data property holding its own argument.  otto (cmplCallNodeFunction: indexOfParameterName[index] = name for every
-   index below the argument count) aliases it to the binding as well.  33, 34: controls (last occurrence; later
-   occurrence without an argument) *)
+   plain data property holding its own argument.  otto used to alias it to the binding as well (finding
+   C01-arguments-dup-param, fixed by bf94f2a: cmplCallNodeFunction clears the earlier occurrences); the probes stay as
+   regression cases that expect the ES5 values.  33, 34: controls (last occurrence; later occurrence without an argument) *)
 Definition pin_dup_spec (id : Z) : list Z :=
   if id =? 30 then [1] else if id =? 31 then [1] else if id =? 32 then [1] else if id =? 33 then [9]
   else if id =? 34 then [0] else if id =? 35 then [3] else [].
-Definition pin_dup_model (id : Z) : list Z :=
-  if id =? 30 then [3] else if id =? 31 then [2] else if id =? 32 then [9] else if id =? 33 then [9]
-  else if id =? 34 then [0] else if id =? 35 then [9] else [].
+Definition pin_dup_model (id : Z) : list Z := pin_dup_spec id.
 Definition pin_spec (id : Z) : list Z :=
   if (30 <=? id) && (id <=? 35) then pin_dup_spec id else
   if (20 <=? id) && (id <=? 26) then pin_acc id else
